@@ -122,7 +122,7 @@ where T: Ring + Bridge, for<'x> &'x T: RingOps<T> {
                 if T::bounded() && !plain_int && p.is_overflow() && T::in_min_exact_domain(opc, &pool_o[i], &pool_o[j]) == Some(true) {
                     good = false;
                     ctx.violation(&format!("C14/{tname}/{:?}/overflow-inside-exact-domain", op),
-                        &format!("{:?} (form {form}) overflowed although the result {} and every intermediate of the common-denominator (lcm) algorithm are representable", op, exp.show()),
+                        &format!("{:?} (form {form}) overflowed although the result {} and every intermediate of the schoolbook algorithm (rationals: common denominator = lcm; quadratic integers: the four partial products and their sums) are representable", op, exp.show()),
                         json!({"type": tname, "history": hist, "a": pool_o[i].show(), "b": pool_o[j].show()}));
                     break
                 }
